@@ -617,8 +617,18 @@ impl Stdfs {
                 dst_root.mash(src.path().trim_prefix(src_root.path()))
             };
 
+            // Copying an entry onto itself is a no-op rather than truncating it
+            if dst_path == src.path() {
+                continue;
+            }
+
             // Recreate links if were not following them
             if !cp.follow && src.is_symlink() {
+                // An existing link at the destination is kept
+                if Stdfs::is_symlink(&dst_path) {
+                    continue;
+                }
+
                 // Copying into a directory might require creating it first
                 if !Stdfs::exists(&dst_path.dir()?) {
                     Stdfs::mkdir_m(
